@@ -208,3 +208,56 @@ func verifC06Names(n int) {
 
 func VerifHarness_C06_names3() { verifC06Names(3) }
 func VerifHarness_C06_names4() { verifC06Names(4) }
+
+// verifC06Writers: every operation that writes to the directory leaves it valid.
+// A directory of 0..2 existing files (symbolic contents) receives, in any order,
+// plans written by the real Planner (WritePlan) and a checkpoint (WriteCheckpoint);
+// after every single write the directory validates, and a content byte edited
+// afterwards is detected.
+func verifC06Writers() {
+	d := &MemDir{}
+	n0 := verifChoice("existing", 3)
+	for i := 0; i < n0; i++ {
+		verifAssert(d.WriteFile(fmt.Sprintf("%d_old.sql", i+1), []byte("O"+verifString(fmt.Sprintf("o%d", i), 1)+";\n")) == nil, "write file")
+	}
+	if n0 > 0 {
+		sum, err := d.Checksum()
+		verifAssert(err == nil, "checksum")
+		verifAssert(WriteSumFile(d, sum) == nil, "write sum")
+	}
+	p := NewPlanner(nil, d)
+	ops := [][]int{{0, 1}, {1, 0}, {0, 0}, {1}, {0}}[verifChoice("ops", 5)] // 0 = WritePlan, 1 = WriteCheckpoint
+	for k, op := range ops {
+		plan := &Plan{Version: fmt.Sprintf("%d", 5+k), Name: "n", Changes: []*Change{{Cmd: "C" + verifString(fmt.Sprintf("c%d", k), 1), Comment: "c"}}}
+		var err error
+		if op == 0 {
+			err = p.WritePlan(plan)
+		} else {
+			err = p.WriteCheckpoint(plan, "")
+		}
+		verifAssert(err == nil, "the plan is written")
+		verifAssert(Validate(d) == nil, "the directory validates after every write of the planner")
+	}
+	verifReach("validates")
+	// and the sum written last still protects every file: flip one content byte
+	files, err := d.Files()
+	verifAssert(err == nil && len(files) > 0, "files")
+	if err != nil || len(files) == 0 {
+		return
+	}
+	victim := files[verifChoice("victim", len(files))]
+	b := append([]byte(nil), victim.Bytes()...)
+	k := len(b) - 3 // a byte of the statement text
+	if k < 0 {
+		return
+	}
+	nb := verifByte("newbyte")
+	verifAssume(nb != b[k])
+	b[k] = nb
+	verifAssert(d.WriteFile(victim.Name(), b) == nil, "edit")
+	err = Validate(d)
+	verifReach("rejected")
+	verifAssert(errors.Is(err, ErrChecksumMismatch), "an edit after the planner's last write is detected")
+}
+
+func VerifHarness_C06_writers() { verifC06Writers() }
